@@ -133,3 +133,77 @@ pub fn random_position(rng: &mut Rng) -> Pos {
 pub fn moves_uci(ms: &[RMove]) -> Vec<String> {
     ms.iter().map(|m| m.uci()).collect()
 }
+
+/// A sparse (low-branching) valid position: two kings and 1-5 other men.
+pub fn sparse_position(rng: &mut Rng) -> Pos {
+    loop {
+        let mut p = Pos {
+            sq: [EMPTY; 64],
+            white_to_move: rng.chance(1, 2),
+            castle: [false; 4],
+            ep: None,
+            halfmove: 0,
+            fullmove: 40,
+        };
+        let mut free: Vec<u8> = (0..64).collect();
+        rng.shuffle(&mut free);
+        p.sq[free.pop().unwrap() as usize] = KING;
+        p.sq[free.pop().unwrap() as usize] = KING | BLACK;
+        let n = rng.range(1, 5);
+        for _ in 0..n {
+            let k = *rng.pick(&[PAWN, PAWN, PAWN, KNIGHT, BISHOP, ROOK, QUEEN]);
+            let c = if rng.chance(1, 2) { 0 } else { BLACK };
+            let s = free.pop().unwrap();
+            if k == PAWN && (rank_of(s) == 0 || rank_of(s) == 7) {
+                continue;
+            }
+            p.sq[s as usize] = k | c;
+        }
+        if p.is_valid() && !p.legal_moves().is_empty() {
+            return p;
+        }
+    }
+}
+
+/// A promotion-race position (pawns one step from promotion on both sides), the kind
+/// whose quiescence search explodes.
+pub fn promotion_race(rng: &mut Rng) -> Pos {
+    loop {
+        let mut p = Pos {
+            sq: [EMPTY; 64],
+            white_to_move: rng.chance(1, 2),
+            castle: [false; 4],
+            ep: None,
+            halfmove: 0,
+            fullmove: 50,
+        };
+        let wk = sq(rng.below(8) as i8, rng.below(3) as i8);
+        let bk = sq(rng.below(8) as i8, 5 + rng.below(3) as i8);
+        p.sq[wk as usize] = KING;
+        p.sq[bk as usize] = KING | BLACK;
+        let nw = rng.range(2, 5);
+        let nb = rng.range(2, 5);
+        for _ in 0..nw {
+            let s = sq(rng.below(8) as i8, 6);
+            if p.sq[s as usize] == EMPTY {
+                p.sq[s as usize] = PAWN;
+            }
+        }
+        for _ in 0..nb {
+            let s = sq(rng.below(8) as i8, 1);
+            if p.sq[s as usize] == EMPTY {
+                p.sq[s as usize] = PAWN | BLACK;
+            }
+        }
+        for _ in 0..rng.below(4) {
+            let s = rng.below(64) as u8;
+            if p.sq[s as usize] == EMPTY {
+                let k = *rng.pick(&[KNIGHT, BISHOP, ROOK, QUEEN]);
+                p.sq[s as usize] = k | if rng.chance(1, 2) { 0 } else { BLACK };
+            }
+        }
+        if p.is_valid() && !p.legal_moves().is_empty() {
+            return p;
+        }
+    }
+}
